@@ -454,6 +454,23 @@ package httpserver
 //@   ensures [new_file_gets_one_roller] (!absFails(l.Filename) && !old(has(lumberjacks, absPathOf(l.Filename)))) ==> (has(lumberjacks, absPathOf(l.Filename)) && result == lumberjacks[absPathOf(l.Filename)] && fresh(result))
 //@   ensures [other_files_keep_their_rollers] forallT(k, string, (absFails(l.Filename) || k != absPathOf(l.Filename)) && (!absFails(l.Filename) || k != l.Filename) ==> (has(lumberjacks, k) == old(has(lumberjacks, k)) && lumberjacks[k] == old(lumberjacks[k])))
 
+//@ unit trim_path_prefix props=C02,C01 filter=`httpserver\.trimPathPrefix$`
+//@ // A site defined with a path prefix sees the request URL with the prefix cut off. Whatever the rest looks like, it is
+//@ // still a path of THIS site: the URL handed to the site's handlers names no other host or scheme (they build their
+//@ // redirects from it: "every redirect starts with exactly one '/'"), or it is the original URL when re-parsing failed.
+//@ use @verif/specs/stdlib.spec:stdlib
+//@ extern (*net/url.URL).EscapedPath
+//@ extern net/url.Parse
+//@   ensures result1 == nil ==> result0 != nil
+//@ // a rooted request path is read as a path (ParseRequestURI never takes an authority out of "//x/y" without a scheme)
+//@ extern net/url.ParseRequestURI
+//@   ensures (result1 == nil && len(rawURL) > 0 && rawURL[0] == '/') ==> (result0 != nil && result0.Host == "" && result0.Scheme == "" && result0.User == nil && result0.Opaque == "")
+//@   ensures result1 == nil ==> result0 != nil
+//@ extern log.Printf
+//@ func trimPathPrefix
+//@   requires u != nil
+//@   ensures [remainder_stays_a_path_of_this_site] result != nil && (result == u || (result.Host == "" && result.Scheme == "" && result.User == nil && result.Opaque == ""))
+
 //@ unit split_host_path frames=on props=C01 filter=`vhostTrie\)\.splitHostPath$`
 //@ // "host matching ignores letter case and port": the key both Insert and Match look up is the lower-cased text before the
 //@ // first slash, with the port removed exactly when net.SplitHostPort accepts it as host:port (hostOf/hasPort below ARE
